@@ -1,0 +1,68 @@
+//go:build verif
+
+package goose
+
+// Read-only views of what the translator records, for external checks
+// (only compiled with the build tag "verif").
+
+import (
+	"golang.org/x/tools/go/packages"
+
+	"github.com/goose-lang/goose/internal/coq"
+)
+
+// VerifDeclInfo is what translating one top-level Go declaration recorded.
+type VerifDeclInfo struct {
+	File    string   // base name of the file
+	Index   int      // position among the file's declarations
+	Names   []string // names the declaration defines (depTracker.names)
+	Deps    []string // names it mentions (depTracker.deps)
+	Emitted []string // the Coq declarations it produced (imports left out)
+	Err     string   // conversion error, if any
+}
+
+// VerifDecls translates pkg like translatePackage does and returns, per Go
+// declaration in (sorted file, position) order, what was recorded for it,
+// together with the Coq declarations in the order Decls emitted them (comments
+// and imports left out).
+func VerifDecls(pkg *packages.Package, tr TranslationConfig) (infos []VerifDeclInfo, emitted []string, err error) {
+	ctx, err := NewPkgCtx(pkg, tr)
+	if err != nil {
+		return nil, nil, err
+	}
+	files := sortedFiles(pkg.CompiledGoFiles, pkg.Syntax)
+	for _, f := range files {
+		for di, d := range f.Ast.Decls {
+			ctx.dep = &depTracker{}
+			info := VerifDeclInfo{File: f.Name(), Index: di}
+			newDecls, derr := ctx.declsOrError(d)
+			if derr != nil {
+				info.Err = derr.Error()
+			}
+			info.Names = ctx.dep.names
+			info.Deps = ctx.dep.deps
+			nonImports, _ := filterImports(newDecls)
+			for _, nd := range nonImports {
+				info.Emitted = append(info.Emitted, nd.CoqDecl())
+			}
+			infos = append(infos, info)
+		}
+	}
+	ctx2, err := NewPkgCtx(pkg, tr)
+	if err != nil {
+		return nil, nil, err
+	}
+	_, decls, _ := ctx2.Decls(files...)
+	for _, d := range decls {
+		if _, isComment := d.(coq.CommentDecl); isComment {
+			continue
+		}
+		emitted = append(emitted, d.CoqDecl())
+	}
+	return infos, emitted, nil
+}
+
+// VerifLoad loads packages exactly as TranslatePackages does.
+func VerifLoad(modDir string, pkgPattern ...string) ([]*packages.Package, error) {
+	return packages.Load(newPackageConfig(modDir), pkgPattern...)
+}
